@@ -130,6 +130,25 @@ def main(argv=None) -> int:
                 print("VIOLATION property=%s replay=%s" % (prop, args.replay))
             return 1
         selftest = None
+        if args.tier != "thorough":
+            # positive controls: rules that have no instance on today's tree must still fire on a tiny variant
+            from .mutants import CONTROLS, catalogue
+            from .selftest import _run_one
+            for name in CONTROLS.get(prop, []):
+                m = [x for x in catalogue(prop) if x.name == name]
+                if not m:
+                    print("ANALYSIS-ERROR: positive control %s is missing from the catalogue" % name)
+                    return 2
+                o = _run_one((prop, args.repo, m[0]))
+                base = {tuple(k) for k in res.finding_keys()}
+                new = [k for k in map(tuple, o.get("keys", [])) if k not in base and (m[0].rule is None or k[1] == m[0].rule)]
+                res.extra.setdefault("positive_controls", []).append(
+                    {"control": name, "rule": m[0].rule, "status": o["status"], "reported": bool(new)})
+                if o["status"] == "inapplicable":
+                    continue  # the anchor statement was rewritten; the thorough tier's seeded changes cover the rule
+                if not new:
+                    print("ANALYSIS-ERROR: positive control %s (rule %s) was not reported: the rule would pass vacuously" % (name, m[0].rule))
+                    return 2
         if args.tier == "thorough":
             from .selftest import run_selftest
 
